@@ -47,6 +47,7 @@ def run_schedule(rng, argvs, root, workdir, strategy="pct", max_steps=1500, tau=
     bufs = {}
     ready = set()
     trace = []
+    tids = {}
     cur = None
     steps = 0
     preempt_points = set()
@@ -122,16 +123,17 @@ def run_schedule(rng, argvs, root, workdir, strategy="pct", max_steps=1500, tau=
             parked_ids = {v[0] for v in parked.values()}
             if (live - parked_ids) and time.monotonic() - last_progress < tau:
                 continue
+            # the scheduling entity is the thread: (participant id, thread id)
             cands = sorted(parked.items(), key=lambda kv: (kv[1][0], kv[1][1]))
             pick = None
-            stay = [kv for kv in cands if kv[1][0] == cur]
+            stay = [kv for kv in cands if (kv[1][0], kv[1][1]) == cur]
             if strategy == "pct":
                 if stay and not (change_points and phase2_step >= change_points[0]):
                     pick = stay[0]
                 else:
                     if change_points and phase2_step >= change_points[0]:
                         change_points.pop(0)
-                    others = [kv for kv in cands if kv[1][0] != cur] or cands
+                    others = [kv for kv in cands if (kv[1][0], kv[1][1]) != cur] or cands
                     pick = rng.choice(others)
             else:
                 if stay and rng.random() > 0.35:
@@ -139,10 +141,13 @@ def run_schedule(rng, argvs, root, workdir, strategy="pct", max_steps=1500, tau=
                 else:
                     pick = rng.choice(cands)
             c, v = pick
-            if cur is not None and v[0] != cur and any(kv[1][0] == cur for kv in cands):
+            if cur is not None and (v[0], v[1]) != cur and any((kv[1][0], kv[1][1]) == cur for kv in cands):
                 preempt_points.add((v[2], _pclass(v[4])))
-            cur = v[0]
-            trace.append((v[0], v[2], _short(v[4])))
+            cur = (v[0], v[1])
+            tids.setdefault(v[0], [])
+            if v[1] not in tids[v[0]]:
+                tids[v[0]].append(v[1])
+            trace.append((v[0] if len(tids[v[0]]) == 1 and tids[v[0]][0] == v[1] else f"{v[0]}.{tids[v[0]].index(v[1])}", v[2], _short(v[4])))
             del parked[c]
             _grant(c)
             last_progress = time.monotonic()
